@@ -9,3 +9,9 @@ CHECKS['C01'] = dict(
     technique='exhaustive enumeration of the complete message space (1.33M messages + bounded sysex) of the implementation against a reference codec',
     text='Every one of the 1 331 463 valid non-sysex messages and a bounded family of sysex payloads is constructed, encoded and decoded on the real code; bytes/bin/hex/len are compared with an independent MIDI 1.0 reference encoder and the decoded message with the original. The non-sysex space is finite and covered completely, which is the strongest statement available for it.',
     note='Trusted: the reference codec in mc/ref/midi.py (typed from the MIDI 1.0 tables). Sysex payloads beyond the class alphabet and listed lengths, and time values beyond six representatives, are assumed to be handled uniformly.')
+
+CHECKS['C02'] = dict(
+    engine='E1-enum', category='exploration', design_ref='DESIGN.md 5/C02',
+    technique='exhaustive enumeration of all 16.8M integer sequences of length <= 3 (and length 4-6 over a boundary alphabet, odd items) of the implementation against a reference acceptor',
+    text='Message.from_bytes is called on every integer sequence of length 0..3 over 0..255 (complete), on every sequence of length 4..5 (6 thorough) over a 14-symbol boundary alphabet, and on out-of-byte and non-integer items at every position of one template per status family; from_hex over the hex renderings. An independent reference acceptor decides VALID (message must reproduce the input) or INVALID (exactly ValueError; TypeError only for non-integers).',
+    note='Trusted: reference acceptor mc/ref/midi.py. Sequences longer than 3 only over the boundary alphabet.')
